@@ -279,6 +279,10 @@ func constIndexSites(fn *ssa.Function) []panicSite {
 			if _, ok := y.X.Type().Underlying().(*types.Slice); ok {
 				x, idx = y.X, y.Index
 			}
+		case *ssa.Index:
+			if b, ok := y.X.Type().Underlying().(*types.Basic); ok && b.Info()&types.IsString != 0 {
+				x, idx = y.X, y.Index
+			}
 		case *ssa.Slice:
 			// s[a:b] with constant bounds on a string
 			if b, ok := y.X.Type().Underlying().(*types.Basic); ok && b.Info()&types.IsString != 0 {
